@@ -9,7 +9,13 @@ and opened with DebFile(fileobj=BytesIO).
   * defective member sets: every subset of the 11 part names {debian-binary, control.tar[.gz|.bz2|.xz|.lzma],
     data.tar[...]} that is not a well-formed package (2 023 subsets: no debian-binary, no control candidate,
     no data candidate, two or more candidates for a part) plus sets whose only offer for a part has an unknown
-    extension.
+    extension;
+  * large, interleaved packages: three contents whose parts are far bigger than one physical read of the decompressors
+    (data files of 20 000 and 70 000 incompressible bytes - chained SHA-256 digests, nothing random - next to three
+    small ones; the same with a 20 000-byte binary "config" script; and 140 000-byte members for gzip, which fetches
+    128 KiB at a time), in all 25 compression pairs x 2 member orders, each queried in 3..5 interleaved histories on ONE
+    DebFile object: data/control/data/scripts/data..., control first, and get_file() streams read in 4096-byte chunks
+    with control queries (or a second stream, of the control part or of another data file) between the chunks.
 
 Oracle: what was packed (the generator's own lists), never anything read back through the code under test.
 """
@@ -24,7 +30,12 @@ LEVEL = "model_checking"
 RULE = ("inputs = (content, configuration) pairs and defective member sets, walked as a choice tree content -> control "
         "compression -> data compression -> member order (states = nodes of that tree, transitions = its edges, traces = "
         "complete packages opened with DebFile and queried); non-trivial = well-formed packages with at least one data "
-        "file and at least one compressed or displaced part, plus every defective member set")
+        "file and at least one compressed or displaced part, plus every defective member set, plus every large-package "
+        "history.  Large packages (parts of 20 KB .. 280 KB, each consumed in many physical reads) add a second level: content "
+        "-> control compression -> data compression -> member order -> history -> its operations on ONE DebFile object "
+        "(get_content / has_file / debcontrol / scripts / md5sums / get_file + read(n) chunks, alternating between the "
+        "control and the data part); there a state is an operation prefix, a transition one operation whose result is "
+        "compared with what was packed, a trace one complete history")
 BUDGET = {"quick": 240, "thorough": 3000}
 
 ORDERS = list(itertools.permutations((0, 1, 2)))
@@ -50,6 +61,16 @@ def bounds(tier):
             "configurations": "5 x 5 compressions x 6 member orders = 150, all of them for every content",
             "defective_sets": "all 2023 non-well-formed subsets of the 11 part names + 17 unknown-extension sets, in %d member orders"
                               % (2 if tier == "quick" else 4),
+            "large_packages": {
+                "contents": "big-data (data files of 20000 and 70000 incompressible bytes + 3 small, small control part), "
+                            "big-both (the same + a 20000-byte config script), huge-both (140000-byte data file and config "
+                            "script: parts > 128 KiB, for gzip's read size)",
+                "configurations": "big-data/big-both: 5 x 5 compressions x %d member orders; huge-both: %s x %d member orders" % (
+                    len(LARGE_ORDERS[tier]), "(none,gz) (gz,none) (gz,gz)" if tier == "quick" else "the 9 pairs with gz on a side",
+                    len(LARGE_ORDERS[tier])),
+                "histories": dict((k, list(v)) for k, v in LARGE_HISTORIES.items()),
+                "stream_chunk_sizes": CHUNK[tier],
+                "part_sizes": "every compressed part of big-both/huge-both and every data part exceeds 8192 bytes (20 KB..280 KB)"},
             "open_mode": "DebFile(fileobj=io.BytesIO(...))"}
 
 
@@ -63,6 +84,11 @@ def assumptions():
             "exception class from get_content for all three spellings (nothing about which class)",
             "the md5sums control member is written as 'md5<two blanks>name\\n' per entry (dpkg's format); names have inner "
             "and trailing blanks (a leading blank cannot be told from the separator; no CR/LF inside names)",
+            "large packages: 'incompressible' bytes are chained SHA-256 digests (debbuilder.chain_bytes), deterministic; the seed "
+            "only changes the chain's label.  A get_file() object is read with read(n) and must return exactly the next n packed "
+            "bytes (fewer only at the end of the member, b'' after it) whatever else was queried on the same DebFile object in "
+            "between; a history stops at its first wrong observation.  Any exception (LZMAError, EOFError, zlib.error, "
+            "tarfile.ReadError...) raised while reading a well-formed package is a violation",
             "tar members are './name' with a './' root entry and intermediate directory entries (as dpkg-deb writes them), GNU format"]
 
 
@@ -557,7 +583,7 @@ def history_ops(hist, lg, chunk):
     if hist == "data-first":
         return [["dget", s0, "plain"], ["ctl"], ["dget", bigger, "slash"], ["scr"], ["dget", s0, "dot"], ["md5"],
                 ["dget", lesser, "plain"], ["cget", "control"], ["dget", s2, "slash"], ["dhas", s1, "dot"],
-                ["dget", s1, "dot"], ["cget", bc], ["dget", bigger, "dot"], ["ctl"]]
+                ["dget", s1, "dot"], ["cget", bc], ["ctl"]]
     if hist == "control-first":
         return [["ctl"], ["scr"], ["dget", s0, "slash"], ["md5"], ["dget", lesser, "dot"], ["ctl"],
                 ["dget", bigger, "plain"], ["cget", bc], ["dget", s2, "plain"], ["scr"], ["dget", s0, "plain"]]
@@ -690,8 +716,8 @@ def run_large(u, tier, seed):
                     part.evaluations += n
                     part.nontrivial += 1
                     part.max_depth = max(part.max_depth, len(ops))
-                    case = {"kind": "large", "content": spec, "cc": cc, "dc": dc, "order": list(order), "history": hist,
-                            "ops": ops}
+                    case = {"kind": "large", "cc": cc, "dc": dc, "order": list(order), "history": hist, "chunk": chunk,
+                            "ops": ops, "content": spec}
                     for sig, exp, obs in bad:
                         part.violation(sig, case, exp, obs, rank=len(ops))
                     part.outcomes["large %s data=%s -> %s" % (hist, dc, "violating" if bad else "all bytes as packed")] += 1
